@@ -292,7 +292,8 @@ def per_object_bounds(index: RepoIndex, rep, rule: str) -> None:
             mx = si.value
         elif 'state_index' in c.methods:
             b = c.methods['state_index'].body()
-            if len(b) == 1 and isinstance(b[0], ast.Return) and src(b[0].value) == 'self.state.value':
+            from ..view import value_text
+            if value_text(index, c.methods['state_index']) == 'self.state.value':
                 mx = max(om.status.members.values())
                 mn = min(om.status.members.values())
                 if mn != 0:
@@ -419,7 +420,8 @@ def type_sets(index: RepoIndex, rep, rule: str) -> None:
             b = sp.body()
             want = f'{fn_pref}_grid_object_representation_space(self._grid_object_types, ' \
                    f'self._grid_object_colors)'
-            rep.check(len(b) == 1 and isinstance(b[0], ast.Return) and src(b[0].value) == want,
+            from ..view import value_text
+            rep.check(value_text(index, sp) == want,
                       rule, rel, f'{c.name}.space', sp.node.lineno, src(b[-1]),
                       f'{c.name}.space does not derive its bounds from the same type/colour sets',
                       f'{c.name}.space sets')
@@ -429,7 +431,7 @@ def type_sets(index: RepoIndex, rep, rule: str) -> None:
             want = (f'{fn_pref}_grid_object_representation_convert(self._grid_object_types, '
                     f'self._grid_object_colors, {go})') if passes_sets else \
                 f'{fn_pref}_grid_object_representation_convert({go})'
-            okc = len(b) == 1 and isinstance(b[0], ast.Return) and src(b[0].value) == want
+            okc = value_text(index, cv) == want
             if not okc and passes_sets:
                 okc = _same_channels_as_sibling(index, c, fn_pref)
             rep.check(okc,
@@ -484,8 +486,8 @@ def shapes_dtypes(index: RepoIndex, rep, rule_shape: str, rule_dtype: str) -> No
     # trusted by the shape canonicalisation (guards.dims_of): Shape.as_tuple is (height, width)
     at = index.func('gym_gridverse/geometry.py', 'Shape.as_tuple')
     b = at.body()
-    rep.check(len(b) == 1 and isinstance(b[0], ast.Return) and
-              src(b[0].value) in ('(self.height, self.width)',), rule_shape,
+    from ..view import value_text
+    rep.check(value_text(index, at) in ('(self.height, self.width)',), rule_shape,
               'gym_gridverse/geometry.py', 'Shape.as_tuple', at.node.lineno, src(b[-1]),
               'Shape.as_tuple is not (height, width): every array shaped by it would be '
               'transposed', 'Shape.as_tuple = (height, width)')
@@ -650,7 +652,8 @@ def shapes_dtypes(index: RepoIndex, rep, rule_shape: str, rule_dtype: str) -> No
             if want is None:
                 p = m.node.args.args[1].arg
                 want = f'self.grid_object_representation.convert({p}.agent.grid_object)'
-            rep.check(len(b) == 1 and isinstance(b[0], ast.Return) and src(b[0].value) == want,
+            from ..view import value_text
+            rep.check(value_text(index, m) == want,
                       rule_shape, rel, f'{c.name}.{mn}', m.node.lineno, src(b[-1]),
                       f'{c.name}.{mn} is not the per-object {mn} of the held item',
                       f'{c.name}.{mn}')
